@@ -108,6 +108,19 @@ Definition expand_obs_ok (pf : res fancy_layout) (core full : fancy_layout -> re
   | _ => true
   end.
 
+(* how many basic mappings each SOURCE mapping of [j] expands to (ConvertSpec.expand_mapping, before the repeat-only
+   entries are applied; identity mappings added by repeat-only entries come after all of these).  C13 fixes the order
+   "between different source mappings", not inside one: the checker driver compares a real result with the
+   specification block by block, each block as a multiset. *)
+Definition block_lengths (j : json) : option (list nat) :=
+  match parse_layout j with
+  | Ok f => match map_res (expand_mapping f) f with
+            | Ok pm => Some (map (@length mapping) pm)
+            | _ => None
+            end
+  | _ => None
+  end.
+
 (* C13.expand: the real loader's answer on [j] against the specification *)
 Definition spec_load (j : json) : res layout := f <- parse_layout j ;; expand f.
 Definition check_expand (j : json) (real : res layout) : bool :=
